@@ -287,6 +287,18 @@ def w8(facts, tier):
                 yield ob(["C13"], "W8", key, "undecided", where(rf), f"{ty}: no format-0 entry in the frozen specification")
                 continue
             ls = rx.from_json(se[gk]["rx"])
+            # a reader may call the reader of a nested schema node (`Field::deserialize`) where the frozen layout spells that
+            # node out: both sides are compared with every nested non-recursive schema node replaced by ITS frozen format-0
+            # layout (the nested node's own reader is a separate obligation)
+            def _inl(sym, depth=[0]):
+                if isinstance(sym, tuple) and sym[0] == "N" and sym[1] in spec and sym[1] != ty and sym[1] not in ("savefile::Schema",) \
+                        and "" in spec[sym[1]] and depth[0] < 3:
+                    depth[0] += 1
+                    r_ = rx.subst(rx.from_json(spec[sym[1]][""]["rx"]), _inl)
+                    depth[0] -= 1
+                    return r_
+                return rx.ev(sym)
+            ls, lr = rx.subst(ls, _inl), rx.subst(lr, _inl)
             ok1, w1_, _, _ = W.contains_modulo_expansion(ls, lr, 0, {})
             ok2, w2_, _, _ = W.contains_modulo_expansion(lr, ls, 0, {})
             if ok1 is True and ok2 is True:
@@ -438,7 +450,7 @@ class V0Eval:
         return ("?", k)
 
 
-@rule("W8d", ["C13"], floor=9, doc="format 0: the fields that format 0 does not carry are filled with the neutral values (annotations None / false / "
+@rule("W8d", ["C13"], floor=7, doc="format 0: the fields that format 0 does not carry are filled with the neutral values (annotations None / false / "
       "Unknown) and the discriminant width with 1 - the width every format-0 enum was written with - so the decoded schema is the stored "
       "one minus memory-layout annotations")
 def w8d(facts, tier):
